@@ -15,9 +15,13 @@ INF = float('inf')
 
 
 def lim_token(table, lim):
-    lim = (float(lim[0]), float(lim[1]))
+    """limits cross the protocol as opaque tokens: L<k> for an interval the minimiser accepts, X<k> for one it refuses
+    (lower > upper); an open end given as None is the same limit as the infinite one"""
+    lo = -INF if lim[0] is None else float(lim[0])
+    hi = INF if lim[1] is None else float(lim[1])
+    lim = (lo, hi)
     if lim not in table:
-        table[lim] = 'L%d' % len(table)
+        table[lim] = ('X%d' if lo > hi else 'L%d') % len(table)
     return table[lim]
 
 
@@ -105,6 +109,11 @@ def run(rep):
                 d = {}
                 for n in pick(rng.randint(1, 3)):
                     d[n] = (rng.choice([-2.0, 0.0, 0.5]), rng.choice([1.5, 3.0, 8.0]))
+                    r2 = rng.random()
+                    if r2 < 0.12:
+                        d[n] = (d[n][1], d[n][0])                  # lower > upper: the minimiser refuses it
+                    elif r2 < 0.2:
+                        d[n] = (None, d[n][1]) if rng.random() < 0.5 else (d[n][0], None)    # an open end
                 optxt = 'limit ' + ' '.join('%s=%s' % (k, lim_token(table, v)) for k, v in d.items())
                 call = lambda d=d: fit.limit_parameters(d)
             else:
